@@ -16,6 +16,8 @@
 //!   F:<tx>:<g|e|b>                      a whole reply frame (genuine / exception / wrong function)
 //!   P:<tx>:<g|e|b>  Q                   the frame without its last two bytes / those two bytes
 //!   G  Z  R                             a header the parser rejects / EOF / read error
+//!   B:<hex>                             raw bytes, delivered as one read chunk (byte-level replies: C04/C05/C11 end to end)
+//!   S:<id>:h<n>|c<n>:<timeout_ns>:f     read n holding registers / coils from address id; the completion carries the values
 //!   W   V:<ns>                          the next write fails / takes <ns>
 //!   T:<ns>                              advance virtual time
 //!   ~<step>                             the same step, but the runtime is not allowed to settle before the next step
@@ -287,6 +289,32 @@ async fn run_case(line: &str, initial: DecodeLevel) -> String {
         };
         let p: Vec<&str> = step.split(':').collect();
         match p[0] {
+            "S" if p[2].starts_with('h') || p[2].starts_with('c') => {
+                // read <n> holding registers / coils from address <id>; the completion log carries the returned values
+                let id: u32 = p[1].parse().unwrap();
+                let coils = p[2].starts_with('c');
+                let count: u16 = p[2][1..].parse().unwrap();
+                let param = RequestParam::new(UnitId::new(1), dur(p[3].parse().unwrap()));
+                if let (Some(ch), Ok(range)) = (handles.last().cloned(), AddressRange::try_from(id as u16, count)) {
+                    let ctl2 = ctl.clone();
+                    tokio::spawn(async move {
+                        let text = if coils {
+                            match ch.read_coils(param, range).await {
+                                Ok(v) => format!("Ok={}", v.iter().map(|x| format!("{}:{}", x.index, x.value as u8)).collect::<Vec<_>>().join(",")),
+                                Err(RequestError::Exception(ex)) => format!("Exception={}", u8::from(ex)),
+                                Err(e) => class::<()>(&Err(e)).to_string(),
+                            }
+                        } else {
+                            match ch.read_holding_registers(param, range).await {
+                                Ok(v) => format!("Ok={}", v.iter().map(|x| format!("{}:{}", x.index, x.value)).collect::<Vec<_>>().join(",")),
+                                Err(RequestError::Exception(ex)) => format!("Exception={}", u8::from(ex)),
+                                Err(e) => class::<()>(&Err(e)).to_string(),
+                            }
+                        };
+                        complete(&ctl2, id, &text);
+                    });
+                }
+            }
             "S" => {
                 let id: u32 = p[1].parse().unwrap();
                 let unformattable = p[2] == "u";
@@ -368,13 +396,14 @@ async fn run_case(line: &str, initial: DecodeLevel) -> String {
                     let _ = gate_tx.send(p[0] == "CO");
                 }
             }
-            "F" | "P" | "Q" | "G" | "Z" | "R" => {
+            "F" | "P" | "Q" | "G" | "Z" | "R" | "B" => {
                 let (wire, writing) = {
                     let c = ctl.lock().unwrap();
                     (c.wire.clone(), c.writing)
                 };
                 if let (Some(w), false) = (wire, writing) {
                     match p[0] {
+                        "B" => w.push(&crate::util::unhex(p[1])),
                         "F" => {
                             if tail.is_none() {
                                 w.push(&frame_bytes(p[1].parse().unwrap(), p[2]))
